@@ -16,7 +16,12 @@ def parseOp (v : Json) : Except String (Op Int × Int) := do
   | "mask" => pure (.mask (← getBoolList v "m"), 1)
   | "concat" => pure (.concat (← getIntListList v "other"), 1)
   | "concatL" => pure (.concatL (← getIntListList v "other"), 1)
-  | "sort" => pure (.sortBy (← getNat v "j"), 1)
+  | "sort" =>
+    let tbl ← getIntListList v "keys"
+    let key : Int → Int := fun x => match tbl.find? (fun p => p.head? == some x) with
+      | some [_, r] => r
+      | _ => 0
+    pure (.sortBy (← getNat v "j") key, 1)
   | "replace" => pure (.replace (← getNat v "j") (← getIntList v "c"), 1)
   | "add" => pure (.addFields (← getIntListList v "new"), 1)
   | _ => throw s!"unknown op {k}"
@@ -30,8 +35,8 @@ def stepRows (st : Nat × List (List Int)) : Op Int → Option (Nat × List (Lis
     else none
   | .concat o => if wfB o && o.length == st.1 then some (st.1, st.2 ++ toRows o) else none
   | .concatL o => if wfB o && o.length == st.1 then some (st.1, toRows o ++ st.2) else none
-  | .sortBy j =>
-    if j < st.1 then (takeRows (argsort (st.2.filterMap (fun r => r[j]?))) st.2).map (fun r => (st.1, r)) else none
+  | .sortBy j key =>
+    if j < st.1 then (takeRows (argsort ((st.2.filterMap (fun r => r[j]?)).map key)) st.2).map (fun r => (st.1, r)) else none
   | .replace j c =>
     if st.1 == 1 && j == 0 then some (1, c.map (fun x => [x]))      -- the only column: any length is a table
     else if j < st.1 && c.length == st.2.length then some (st.1, replaceRows j c st.2) else none
@@ -53,7 +58,7 @@ def handle (op : String) (j : Json) : Except String Json := do
     let cols ← getIntListList j "cols"
     let ops ← (← getArr j "ops").mapM parseOp
     let ops := ops.map (·.1)
-    let m := match run (fun (x : Int) => x) ops cols with
+    let m := match run ops cols with
       | some r => Json.mkObj [("rows", intListList (toRows r)), ("width", nat r.length)]
       | none => errJ
     let s := match runRows ops (cols.length, toRows cols) with
